@@ -31,6 +31,10 @@ def fake_dist(rank, world):
 def make(kind, N, init_epoch, seed, mode):
     from pydrobert.torch.data import EpochRandomSampler, EpochSequentialSampler
     data = list(range(N))
+    if mode == "default":  # argument omitted: the documented default is 'raise'
+        if kind == "random":
+            return EpochRandomSampler(data, init_epoch, seed)
+        return EpochSequentialSampler(data, init_epoch)
     if kind == "random":
         return EpochRandomSampler(data, init_epoch, seed, mode)
     return EpochSequentialSampler(data, init_epoch, mode)
@@ -60,7 +64,7 @@ class C13(PropertyCheck):
             hist = [(0, 0), (0, 1), (0, 3), (2, 2), (5, 0)]
         seed = rng.randrange(1 << 20)
         for N, W, mode, kind, (e0, k) in itertools.product(
-                Ns, Ws, ("raise", "drop", "uneven", "ignore"), ("random", "sequential"), hist):
+                Ns, Ws, ("raise", "drop", "uneven", "ignore", "default"), ("random", "sequential"), hist):
             yield {"N": N, "world": W, "mode": mode, "kind": kind, "seed": seed + N, "init_epoch": e0,
                    "consumed": k}
         # audit addition: a process that is not a member of the (initialised) group: get_rank() == -1.
@@ -106,6 +110,12 @@ class C13(PropertyCheck):
                 for j in reversed(range(len(its))):
                     lazy[j] = [int(x) for x in its[j]]
                 del extra_it
+                # a query for another epoch in between two passes must not move the sampler
+                s5 = make(case["kind"], case["N"], case["init_epoch"], case["seed"], case["mode"])
+                p0 = [int(x) for x in s5]
+                _ = [int(x) for x in s5.get_samples_for_epoch(case["init_epoch"] + 5)]
+                ep_after_query = int(s5.epoch)
+                p1 = [int(x) for x in s5]
                 # a query for the current epoch without iterating, then an assignment of `.epoch` (what the
                 # loaders' epoch setter does on resume / rewind), then a pass: must be the assigned epoch's order
                 s4 = make(case["kind"], case["N"], case["init_epoch"], case["seed"], case["mode"])
@@ -117,12 +127,17 @@ class C13(PropertyCheck):
                 rewind = [int(x) for x in s4]
                 ranks.append({"init": "ok", "len": ln, "len_after": lens_after, "yields": ys,
                               "final_epoch": int(s.epoch), "direct_last": direct, "explicit_first": explicit,
-                              "lazy_yields": lazy, "peek_assign": [peek0, jump, peek1, rewind]})
+                              "lazy_yields": lazy, "peek_assign": [peek0, jump, peek1, rewind],
+                              "query_between": [p0, ep_after_query, p1]})
         return {"ranks": ranks}
+
+    @staticmethod
+    def eff_mode(case):
+        return "raise" if case["mode"] == "default" else case["mode"]
 
     def model_request(self, case):
         return {"op": "c13.group", "case": {
-            "N": case["N"], "mode": case["mode"], "world": 0 if case.get("neg_rank") else case["world"],
+            "N": case["N"], "mode": self.eff_mode(case), "world": 0 if case.get("neg_rank") else case["world"],
             "init_epoch": case["init_epoch"], "perms": self.oracle_perms(case)}}
 
     def compare(self, case, impl, model):
@@ -152,7 +167,7 @@ class C13(PropertyCheck):
         """The property evaluated on the implementation's output alone."""
         if "error" in impl:
             return [(f"sampler raised {impl['error']}: {impl.get('message')}", None)]
-        N, W, mode = case["N"], case["world"], case["mode"]
+        N, W, mode = case["N"], case["world"], self.eff_mode(case)
         fails = []
         perms = self.oracle_perms(case)
         for p in perms:
@@ -178,6 +193,13 @@ class C13(PropertyCheck):
             if r["lazy_yields"] != r["yields"]:
                 fails.append((f"rank {ri}: the order yielded for an epoch depends on when its iterator is consumed "
                               f"(iterators taken first, consumed later: {r['lazy_yields']} vs {r['yields']})", None))
+            if r["final_epoch"] != case["init_epoch"] + case["consumed"] + 1:
+                fails.append((f"rank {ri}: after {case['consumed'] + 1} passes from epoch {case['init_epoch']} (and read-only "
+                              f"queries) the sampler stands at epoch {r['final_epoch']}", None))
+            qb = r["query_between"]
+            if qb[0] != r["yields"][0] or qb[1] != case["init_epoch"] + 1 or (case["consumed"] >= 1 and qb[2] != r["yields"][1]):
+                fails.append((f"rank {ri}: a get_samples_for_epoch query for another epoch between two passes changed the "
+                              f"second pass or the epoch counter ({qb})", None))
             pa = r["peek_assign"]
             if pa != [r["yields"][0], r["yields"][-1], r["yields"][-1], r["yields"][0]]:
                 fails.append((f"rank {ri}: after get_samples_for_epoch(epoch) and an assignment of .epoch the pass does not "
